@@ -32,6 +32,7 @@ fn weights() -> OpWeights {
 		pump: 8,
 		force_close: 0,
 		tamper_revoke: 0,
+		..OpWeights::zero()
 	}
 }
 
